@@ -47,8 +47,14 @@ func buildEmulator() (string, error) {
 		}
 		os.MkdirAll(bin, 0o755)
 		out := filepath.Join(bin, "stgutgmain-verif")
+		args := []string{"build", "-tags", "verif"}
+		if v := os.Getenv("VERIF_COVER"); v != "" && v != "0" {
+			// opt-in coverage mode (vlib/core.py): the emulator writes its counters to GOCOVERDIR (inherited) when it exits
+			out += "-cover"
+			args = append(args, "-cover", "-coverpkg=stgutgmain,free5gclib/...,tglib/...,stgutg/...")
+		}
 		tmp := fmt.Sprintf("%s.tmp.%d", out, os.Getpid())
-		cmd := exec.Command("go", "build", "-tags", "verif", "-o", tmp, ".")
+		cmd := exec.Command("go", append(args, "-o", tmp, ".")...)
 		cmd.Dir = repo
 		env := []string{}
 		for _, kv := range os.Environ() {
